@@ -13,6 +13,7 @@ import (
 	"sort"
 	"strings"
 	"sync"
+	"sync/atomic"
 )
 
 // splitmix64: every random choice of a campaign derives from one state.
@@ -57,10 +58,13 @@ type Oracle struct {
 }
 
 // Ask runs the oracle once over all lines (one answer line per input line).
+var oracleAsked int64
+
 func (o *Oracle) Ask(lines []string) ([]string, error) {
 	if len(lines) == 0 {
 		return nil, nil
 	}
+	atomic.AddInt64(&oracleAsked, int64(len(lines)))
 	nproc := 8
 	if len(lines) < 64 {
 		nproc = 1
@@ -191,6 +195,7 @@ func (r *Result) Add(f Finding) {
 	r.mu.Unlock()
 }
 func (r *Result) Write(path string) {
+	r.Dist["oracle.lines-compared"] = int(atomic.LoadInt64(&oracleAsked)) // how many cases actually went through the Lean model
 	sort.SliceStable(r.Findings, func(i, j int) bool { return r.Findings[i].What < r.Findings[j].What })
 	b, _ := json.MarshalIndent(r, "", " ")
 	os.WriteFile(path, b, 0o644)
